@@ -413,6 +413,30 @@ def _allowlist_exits(atree):
     return sites
 
 
+def _require_pure(fn, fname, allowed_globals):
+    """The method computes a value from its arguments only: no module-level
+    (or other non-local) name is read except the listed classes, nothing but
+    local names is assigned, no mutating method is called."""
+    params = set(a.arg for a in fn.args.args + fn.args.kwonlyargs)
+    local = set(params)
+    for n in ast.walk(fn):
+        if isinstance(n, (ast.Global, ast.Nonlocal)):
+            _fail(fname, n, '%s declares global/nonlocal state' % fn.name)
+        if isinstance(n, ast.Name) and isinstance(n.ctx, ast.Store):
+            local.add(n.id)
+    for n in ast.walk(fn):
+        if isinstance(n, ast.Name) and isinstance(n.ctx, ast.Load) and n.id not in local and n.id not in allowed_globals:
+            _fail(fname, n, '%s reads the non-local name `%s`: the sub-key handed to callees / the caching key must be '
+                  'a pure function of the options' % (fn.name, n.id))
+        if isinstance(n, (ast.Subscript, ast.Attribute)) and isinstance(n.ctx, (ast.Store, ast.Del)):
+            _fail(fname, n, '%s mutates state (%s)' % (fn.name, ast.unparse(n)[:50]))
+        if isinstance(n, ast.Attribute) and n.attr in ('setdefault', 'update', 'append', 'add', 'pop', 'clear', 'extend',
+                                                       'insert', 'remove', '__setitem__', '__dict__'):
+            _fail(fname, n, '%s calls a mutating / reflective method (%s)' % (fn.name, n.attr))
+        if isinstance(n, (ast.Yield, ast.YieldFrom, ast.Await, ast.Lambda, ast.FunctionDef)) and n is not fn:
+            _fail(fname, n, '%s contains a nested scope' % fn.name)
+
+
 def translate(repo):
     # ---- transpiler.py
     path = os.path.join(repo, 'malt', 'pyct', 'transpiler.py')
@@ -532,6 +556,15 @@ def translate(repo):
         _fail('api.py', ck, 'get_caching_key returns something else than ctx.options')
 
     exits = _allowlist_exits(atree)
+    # purity of the two functions that produce cache sub-keys
+    _require_pure(ck, 'api.py', {'converter'})
+    path = os.path.join(repo, 'malt', 'core', 'converter.py')
+    with open(path) as f:
+        vtree = ast.parse(f.read())
+    ocls = _find_class(vtree, 'ConversionOptions', 'converter.py')
+    _require_pure(_find_method(ocls, 'call_options', 'converter.py'), 'converter.py', {'ConversionOptions', 'Feature'})
+    for m in ('as_tuple', '__hash__', '__eq__'):
+        _require_pure(_find_method(ocls, m, 'converter.py'), 'converter.py', {'ConversionOptions', 'Feature', 'hash', 'isinstance'})
 
     out = ['(* GENERATED on every run by tools/translate/c10_cache.py from malt/pyct/transpiler.py,',
            '   malt/pyct/cache.py and malt/impl/api.py -- do not edit *)',
@@ -547,6 +580,9 @@ def translate(repo):
            'Definition cache_has_read_only : bool := true.',
            '(* api.PyToPy.get_caching_key *)',
            'Definition cache_subkey_src : subkey_src := %s.' % sub_src,
+           '(* ConversionOptions.call_options / as_tuple / __hash__ / __eq__ and get_caching_key read no module-level',
+           '   state and mutate nothing (checked by the translator): sub-keys are pure functions of the options *)',
+           'Definition subkeys_pure : bool := true.',
            '(* api.converted_call / _fall_back_unconverted: every _call_unconverted exit,',
            '   (guard depends on the calling context, writes the allowlist cache) *)',
            'Definition allowlist_exits : exits :=',
